@@ -1,5 +1,6 @@
 import PGT.Proofs.FromFlat
 import PGT.Proofs.FromTotal
+import PGT.Proofs.ToTotal
 /-
 C06 – Malformed input becomes diagnostics, never a panic.
 Full statement: `C06_full_from` / `C06_full_to`. Proved for every field kind: the missing-attribute and wrong-type
@@ -82,5 +83,38 @@ theorem C06_scalar_total (ov : List (String × String)) (f : Field) (k : PrimK) 
       · simp
     · simp
   · simp
+
+/-- **C06, CopyTo never panics for a non-nil source and target – proved for every IR** (mutual induction,
+`PGT/Proofs/ToTotal.lean`): any struct value, any sub-family of the attribute types at any depth (missing types become
+diagnostics, `C06_to_missing`), on a target that holds no values yet. `TysOK` asks only what the emitted code takes for
+granted: pairwise distinct attribute names, and for the list / map types that *are* present an element type (an
+object type for lists / maps of messages) – the two places where the emitted code dereferences or asserts without a
+check. -/
+theorem C06_to_total (m : Msg) (obj : GoVal) (atys : Option (List (String × TfTy))) (h : TysOK m.fields atys) (w : String) :
+    copyTo m obj (.obj false false none atys) ≠ .panic w :=
+  copyTo_noPanic m obj false false atys h w
+
+/-- non-vacuity: a message with a string and a list of messages; the target lacks the type of the string attribute
+and of one attribute of the element objects -/
+def exToFields : List Field :=
+  [{ info := { name := "S", nameSnake := "s", kind := .primitive, protoType := "string", path := "M.S",
+               tf := { elemValueType := "github.com/hashicorp/terraform-plugin-framework/types.String", valueCastToType := "string",
+                       valueCastFromType := "string", zeroValue := "\"\"" } } },
+   { info := { name := "L", nameSnake := "l", kind := .objectList, isRepeated := true, isNullable := true, path := "M.L" },
+     msg := some { name := "Inner" },
+     sub := [{ info := { name := "A", nameSnake := "a", kind := .primitive, protoType := "string", path := "M.L.A",
+                         tf := { elemValueType := "github.com/hashicorp/terraform-plugin-framework/types.String", valueCastToType := "string",
+                                 valueCastFromType := "string", zeroValue := "\"\"" } } }] }]
+
+theorem C06_to_total_example_hyp : TysOK exToFields (some [("l", .list (some (.obj (some []))))]) := by
+  simp [exToFields, TysOK, TyOK, List.lookup]
+
+theorem C06_to_total_example_runs :
+    (match copyTo { info := { name := "M" }, fields := exToFields }
+        (.struct [("S", .sc (.str [120])), ("L", .slice (some [.ptr (some (.struct [("A", .sc (.str [121]))]))]))])
+        (.obj false false none (some [("l", .list (some (.obj (some []))))])) with
+     | .ok r => r.diags == [.writeMissing "M.S", .writeMissing "M.L.A"]
+     | _ => false) = true := by
+  decide
 
 end PGT.Props.C06
